@@ -84,6 +84,12 @@ def _descending(kinds, sources):
 
 # ambiguous repetitions: several derivations per end; which one is returned must not depend on what is cached
 PRESETS = [
+    # TWO rules with DIFFERENT exclusions looking at the same texts in turn (A, B, A): an exclusion verdict remembered under the text
+    # alone - not under (rule, text) - is served to the wrong rule
+    ([("r0", ("alt", [("cat", [("ref", 1), ("lit", "!", False)]), ("cat", [("ref", 2), ("lit", "?", False)])], False), None),
+      ("r1", ("rep", 1, None, ("range", 0x61, 0x7A)), 3), ("r2", ("rep", 1, None, ("range", 0x61, 0x7A)), 4),
+      ("r3", ("alt", [("lit", "if", True), ("lit", "else", True)], False), None), ("r4", ("alt", [("lit", "end", True), ("lit", "start", True)], False), None)],
+     ["if?", "if!", "if?", "end!", "end?", "end!", "if?", "else?", "start!", "else!"]),
     # exclusion by a CASE-SENSITIVE rule, then the same texts in other letter cases: a verdict remembered under a folded text would leak
     ([("r0", ("rep", 1, None, ("range", 0x41, 0x7A)), 1), ("r1", ("alt", [("lit", "ab", True), ("lit", "Ba", True)], False), None)], ["abAB", "ABab", "Baba", "bABA"]),
     ([("r0", ("cat", [("ref", 1), ("rep", 0, None, ("lit", "-", False))]), None), ("r1", ("rep", 1, 3, ("alt", [("lit", "k", False), ("lit", "s", False)], False)), 2),
